@@ -59,6 +59,7 @@ class Session:
         from ml_pipeline_engine.parallelism import threads_pool_registry
 
         self.loop = V.VirtualLoop(chooser, max_iters)
+        self.loop.seq_fn = R.next_seq
         self.handles = []
         self._regs = (threads_pool_registry, process_pool_registry)
         self._saved = (threads_pool_registry._pool_executor, process_pool_registry._pool_executor,
